@@ -398,10 +398,14 @@ def gen_dc(ctx_, rng):
     return Ty('dc', spec=spec)
 
 
+LAST_BAD_KEYS = []     # data keys given a wrong-kind value by the last faulty_dc_value() call
+
+
 def faulty_dc_value(ty, rng):
     """A struct-layout member with 1-3 directed faults: duplicate keys via aliases, unknown keys, absent fields, bad values."""
     S = ty.x['spec']
     fields = [f for f in S.ordered_fields() if f.init]
+    del LAST_BAD_KEYS[:]
     d = genval.dc_member(ty, rng, layout='struct')
     if not isinstance(d, dict):
         return None, ()
@@ -421,6 +425,7 @@ def faulty_dc_value(ty, rng):
         elif fault == 'bad' and d:
             kk = rng.choice(list(d))
             d[kk] = rng.choice(genval.WRONG_KIND)
+            LAST_BAD_KEYS.append(kk)
     return d, tuple(sorted(faults))
 
 
